@@ -21,6 +21,9 @@ type StormCase struct {
 	Workers, PerWorker     int
 	Fault                  Fault // Kind code | plain | ctx-deadline | ctx-cancel only
 	Endpoints              []string
+	// MapTo != 0: an ErrorMapper turns every backend error into this HTTP status (statuses the process has
+	// not reported before appear in several requests at once)
+	MapTo int
 }
 
 func genStorm(t *rapid.T) StormCase {
@@ -33,6 +36,9 @@ func genStorm(t *rapid.T) StormCase {
 		}
 	}
 	c.Fault = fs[rapid.IntRange(0, len(fs)-1).Draw(t, "fault")]
+	if rapid.Bool().Draw(t, "mapto") {
+		c.MapTo = rapid.IntRange(400, 599).Draw(t, "status")
+	}
 	for i, n := 0, rapid.IntRange(1, 4).Draw(t, "neps"); i < n; i++ {
 		c.Endpoints = append(c.Endpoints, rapid.SampledFrom(endpoints).Draw(t, "ep"))
 	}
@@ -42,6 +48,9 @@ func genStorm(t *rapid.T) StormCase {
 func checkStorm(t *testing.T, c StormCase) (v harness.Verdict) {
 	v.NonTrivial = true
 	r := newRigB(t, c.Mask, c.Mapper, c.Indirect, false)
+	if c.MapTo != 0 {
+		r = newRigMapped(t, c.Mask, c.Indirect, c.MapTo)
+	}
 	r.setAccept(c.Accept)
 	r.concurrent = true
 	err := faultErr(c.Fault)
@@ -60,7 +69,15 @@ func checkStorm(t *testing.T, c StormCase) (v harness.Verdict) {
 				o := r.do(q)
 				mu.Lock()
 				o.ev = nil // request-log records of concurrent requests cannot be told apart by position
-				judgeFault(&v, r, ep, c.Fault, c.Mask, c.Mapper, o, fmt.Sprintf("storm worker %d request %d", w, k))
+				if c.MapTo != 0 {
+					if o.panicked != nil {
+						v.Failf("panic", "storm worker %d request %d (%s): %v", w, k, ep, o.panicked)
+					} else if o.status != c.MapTo {
+						v.Failf("status-class", "storm worker %d request %d (%s): the mapper asks for %d, answered %d %q", w, k, ep, c.MapTo, o.status, trunc(o.body))
+					}
+				} else {
+					judgeFault(&v, r, ep, c.Fault, c.Mask, c.Mapper, o, fmt.Sprintf("storm worker %d request %d", w, k))
+				}
 				mu.Unlock()
 			}
 		}(w)
